@@ -141,6 +141,9 @@ def form? : String → Option Form
 /-- The stream as the (repaired) decoders deliver it: a syntax error or an unknown key = no stream. -/
 def stream (st : S) : Stream := if st.garbled then .garbled else Stream.ofRaw st.raw
 
+/-- The interned subresource "/status" (index in the harness's `c13Subs`). -/
+def statusSub : Sub := 2
+
 /-- The repaired code normalises (see `Model/Patch`). -/
 def nz : Bool := true
 
@@ -210,6 +213,29 @@ def step (st : S) (toks : List String) : S × String :=
       let want := s!"executed={b01 we} fail={b01 wf} log={showLog wl} cluster={showCluster wc}"
       if ex == we && fail == wf && lg == showLog wl && cl == showCluster wc then (st, "true")
       else (st, "false want " ++ want)
+    | _, _, _, _ => (st, "bad-op")
+  | ["reset"] => ({}, "ok")        -- the next execution of the same case (operator-level cases)
+  | ["hookrun", f, ok] =>
+    -- one execution through taskHandler -> handleRunHook -> Hook.Run (the pinned Run hands over no
+    -- bytes of a failed process: `runBytes false`)
+    match form? f, bool? ok with
+    | some f, some ok =>
+      let r := handleRun concretePf nz f statusSub ok (runBytes false ok (stream st)) ⟨st.cluster, []⟩ st.writers
+      (st, s!"status={if r.failed then "Fail" else "Success"} log={showLog r.st.log} cluster={showCluster r.st.cluster}")
+    | _, _ => (st, "bad-op")
+  | "oracle" :: "hookrun" :: rest =>
+    -- the property for one execution of a hook (Spec.acceptRun): a successful hook: validated as a
+    -- whole, applied once each in order; a failed hook: the execution fails, nothing is applied if any
+    -- document is invalid, otherwise nothing or exactly the on-hook-error operations once each in order
+    match (kv? "hookok" rest).bind bool?, (kv? "fail" rest).bind bool?, kv? "log" rest, kv? "cluster" rest with
+    | some ok, some fail, some lg, some cl =>
+      if Spec.acceptRun (fun c l => (showCluster c, showLog l)) concretePf statusSub st.garbled (documented st)
+          st.cluster st.writers ok (fail, (cl, lg)) then (st, "true")
+      else
+        let (wf, _, wc, wl) := Spec.expectedH concretePf st.garbled (documented st) st.cluster st.writers
+        if ok then (st, s!"false want fail={b01 wf} log={showLog wl} cluster={showCluster wc}")
+        else if anyInvalid st then (st, s!"false want fail=1 log=- cluster={showCluster st.cluster} (an invalid document: nothing may be applied)")
+        else (st, "false want fail=1 and nothing or exactly the on-hook-error operations applied")
     | _, _, _, _ => (st, "bad-op")
   | "oracle" :: "agree" :: rest =>
     -- the property's last sentence, on what the implementation showed for the two renderings
